@@ -120,6 +120,19 @@ class Skeleton:
             return {("break", None, ev)}
         if isinstance(st, ast.Raise):
             return {("raise", None, ev)}
+        if isinstance(st, ast.Try) and st.finalbody and not st.handlers:
+            # try/finally: the body decides, the finally block runs on every way out (its events are added, its own exits
+            # would override -- outside the fragment)
+            for n in ast.walk(ast.Module(body=st.finalbody, type_ignores=[])):
+                if isinstance(n, (ast.Return, ast.Continue, ast.Break, ast.Raise)):
+                    raise AnalysisError("decision skeleton: control flow inside a finally block at line {}".format(st.lineno))
+            out = set()
+            for kind, value, ev2 in self.run(st.body + st.orelse, val, ev):
+                ev3 = ev2
+                for b in st.finalbody:
+                    ev3 = self._events(b, ev3)
+                out.add((kind, value, ev3))
+            return out
         if isinstance(st, (ast.For, ast.While, ast.Try, ast.With, ast.Match)):
             # nested compound statements: events inside count, control flow inside is
             # not interpreted (outside the supported fragment if it contains exits)
